@@ -2,5 +2,5 @@
 # usage: tryseed.sh SEED REGEX   -- apply a stored seed to /repo (must be clean of source edits), verify, undo with apply -R
 p=/verif/seeded/$1/patch.diff
 cd /repo && git apply "$p" || exit 2
-/verif/bin/govc verify "$2" 2>&1 | grep -v "file:" | cut -c1-200 | tail -${3:-4}
+${GOVC:-/verif/bin/govc} verify "$2" 2>&1 | grep -v "file:" | cut -c1-200 | tail -${3:-4}
 cd /repo && git apply -R "$p"
